@@ -139,6 +139,16 @@ class StlAstParserVisitor(LtlAstParserVisitor, StlParserVisitor):
     def visitInterval(self, ctx):
         begin, begin_unit = self.visit(ctx.intervalTime(0))
         end, end_unit = self.visit(ctx.intervalTime(1))
+
+        # 0 <= begin <= end, compared as durations (a unit written on one bound only applies to both)
+        b_unit = begin_unit if begin_unit else end_unit
+        e_unit = end_unit if end_unit else begin_unit
+        b_factor = self.U[b_unit] if b_unit else 1
+        e_factor = self.U[e_unit] if e_unit else 1
+        if begin < 0 or begin * b_factor > end * e_factor:
+            raise RTAMTException('The interval [{0}{1}:{2}{3}] is not well-formed: its bounds must satisfy '
+                                 '0 <= begin <= end.'.format(begin, begin_unit, end, end_unit))
+
         interval = Interval(begin, end, begin_unit, end_unit)
         return interval
 
